@@ -184,3 +184,11 @@ where
     }
     out
 }
+
+/// keep the cases with index % n == i (sharding a workload over several short processes)
+pub fn shard<T>(v: Vec<T>, s: (usize, usize)) -> Vec<T> {
+    if s.1 <= 1 {
+        return v;
+    }
+    v.into_iter().enumerate().filter(|(k, _)| k % s.1 == s.0).map(|(_, c)| c).collect()
+}
